@@ -262,8 +262,16 @@ def generate(run_seed, fault_config="none", jit=False, max_ops=14, meta=None):
             op["handle"] = ops_rng.choice(outputs)
             op["what"] = ops_rng.choice(["theory", "observables", "xgrid", "pids", "result", "kin", "all"])
         faults = []
+        if fault_rate and kind in ("upgrade", "upgrade_twice") and frng.random() < fault_rate:
+            # an interrupt at an arbitrary source line of the legacy-card upgrade
+            faults.append({"site": "line", "call": frng.randrange(0, 45), "do": "interrupt_line"})
         if fault_rate and kind in ("construct", "run", "run_yadism") and frng.random() < fault_rate:
-            if kind == "construct":
+            import math as _m
+
+            if frng.random() < 0.4:
+                hi = 260 if kind != "run" else 400
+                faults.append({"site": "line", "call": int(_m.exp(frng.random() * _m.log(hi))) - 1, "do": "interrupt_line"})
+            elif kind == "construct":
                 faults.append({"site": "get_esf", "call": frng.randrange(0, 6), "do": "interrupt_get_esf"})
             else:
                 site = frng.choice(["conv", "conv", "console", "get_esf"])
@@ -417,9 +425,14 @@ class Execution:
             for i, op in enumerate(tr["ops"]):
                 self.sched.begin_op(i, op.get("faults"))
                 n0 = len(self.sched.fired)
+                tracing = any(f.get("site") == "line" for f in op.get("faults") or [])
                 try:
+                    if tracing:
+                        self.seams.lines.start()
                     self.do_op(i, op)
                 finally:
+                    if tracing:
+                        self.seams.lines.stop()
                     self.sched.end_op()
                 if self.violations:
                     break
@@ -560,6 +573,11 @@ class Execution:
             t, o = self.card_objs[op["theory"]], self.card_objs[op["obs"]]
             try:
                 nt, no = compatibility.update(t, o)
+            except SimInterrupt:
+                self.interrupted += 1
+                self.probes["failure_path_taken"] += 1
+                self.log(i, kind, "interrupted")
+                return
             except Exception as e:  # noqa: BLE001
                 self.rejected += 1
                 self.probes["failure_path_taken"] += 1
@@ -571,7 +589,13 @@ class Execution:
                 self.probes["upgrade_returned_input_object"] += 1
             if kind == "upgrade_twice":
                 snap_t, snap_o = copy.deepcopy(nt), copy.deepcopy(no)
-                nt2, no2 = compatibility.update(nt, no)
+                try:
+                    nt2, no2 = compatibility.update(nt, no)
+                except SimInterrupt:
+                    self.interrupted += 1
+                    self.probes["failure_path_taken"] += 1
+                    self.log(i, kind, "interrupted-2nd")
+                    return
                 if not canon.plain_equal(nt2, snap_t) or not canon.plain_equal(no2, snap_o):
                     d = _first_diff(canon.plain(snap_t), canon.plain(nt2)) or _first_diff(canon.plain(snap_o), canon.plain(no2))
                     self.violation("upgrade-not-idempotent", i, [op["theory"], op["obs"]], d)
